@@ -2,7 +2,7 @@
 From Coq Require Import List ZArith NArith Bool Permutation Sorted.
 From Coq.Strings Require Import Byte.
 Import ListNotations.
-From SV Require Import Text G_flags C10_Model C10_Lemmas C10_Table.
+From SV Require Import Text G_flags C10_Model C10_Lemmas C10_Table C10_Reader.
 Local Open Scope Z_scope.
 
 (* P0 single_loc_spec: _parse_single_loc on the text of one location. n -> [n-1, n), a..b -> [a-1, b), '<' and '>' -> BEYOND_LEFT /
@@ -69,7 +69,7 @@ Theorem C10_wrapped_loc : forall s w, concat (wrap_at s w) = s.
 Proof. exact wrap_concat. Qed.
 Print Assumptions C10_wrapped_loc.
 
-(* P2 read_render, partial: the whole reader on rendered files equals the view (ids, upper-case residues, feature type /
+(* regression anchor, subsumed by C10_read_render below: the whole reader on rendered files equals the view (ids, upper-case residues, feature type /
    ordered locations / qualifiers / seqid, exclude semantics, read_fts = concatenated features) -- proved here only on a finite
    box of 324 files x 7 exclude tuples (with and without 'fts', 'seq', 'translation'); the general statement is covered by the correspondence run only *)
 Theorem C10_read_render_box_partial : forall excl rs, In excl box_excl -> In rs box_files ->
@@ -91,6 +91,48 @@ Theorem C10_feature_table_locs_partial : forall excl s key e w,
     /\ fts s2 = fts s ++ [mkfeat key (sort_locs (sem e)) [] None] /\ fttype s2 = None /\ mode s2 = mode s.
 Proof. exact (fun excl s key e w H1 H2 H3 H4 H5 H6 H7 H8 => conj render_feat_split (feature_table_locs excl s key e w H1 H2 H3 H4 H5 H6 H7 H8)). Qed.
 Print Assumptions C10_feature_table_locs_partial.
+
+(* P2 read_render, GENERAL (unbounded): for every list of well-formed abstract records and every exclude tuple, the reader applied to
+   the rendered GenBank text returns exactly the view -- one record per abstract record, in order; and read_fts returns the
+   concatenated features.  (read and iter_ both list iter_genbank; that dispatch is outside the model and tested only.) *)
+Theorem C10_read_render : forall excl rs, wf_C10 excl rs = true ->
+  iter_genbank excl (render_gb rs) = ROk (view excl rs) /\ read_fts_genbank excl (render_gb rs) = ROk (view_fts excl rs).
+Proof. exact read_render. Qed.
+Print Assumptions C10_read_render.
+
+(* what the view is, clause by clause: one record per abstract record in order; id = first word of ACCESSION ('' without one);
+   residues upper-cased; one feature per feature-table entry with key as type, the meaning of its location ordered along the
+   strand, the record id as seqid and its qualifiers (flags collected under 'misc') *)
+Theorem C10_view_spec : forall excl rs,
+  length (view excl rs) = length rs
+  /\ Forall2 (fun r v =>
+       rid v = match view_id r with Some i => i | None => [] end
+       /\ (mem k_seq excl = false -> rseq v = upper (aseq r))
+       /\ (mem k_fts excl = false ->
+           exists fl, rfts v = Some fl /\
+             Forall2 (fun f g => ftype g = akey f /\ flocs g = sort_locs (sem (aloc f)) /\ fseqid g = view_id r
+                        /\ (mem k_translation excl = false -> fquals g = view_quals (aquals f) (flag_names (aquals f)) false)) (afts r) fl))
+     rs (view excl rs).
+Proof. exact view_spec. Qed.
+Print Assumptions C10_view_spec.
+
+(* the exclude option removes exactly what it names: relative to reading without exclude, 'seq' empties the residues, 'fts'
+   drops the feature list, 'translation' deletes that qualifier from every feature, nothing else changes *)
+Theorem C10_exclude_exact : forall excl r,
+  view_rec excl r =
+  mkrec (rid (view_rec [] r))
+        (if mem k_seq excl then [] else rseq (view_rec [] r))
+        (if mem k_fts excl then None
+         else option_map (map (fun f => if mem k_translation excl then del_translation f else f)) (rfts (view_rec [] r))).
+Proof. exact exclude_exact. Qed.
+Print Assumptions C10_exclude_exact.
+
+(* read_fts agrees with read/iter_: its result is the concatenation of the feature lists of the records *)
+Theorem C10_read_fts_agrees : forall excl rs, wf_C10 excl rs = true ->
+  read_fts_genbank excl (render_gb rs) = ROk (flat_map feats_of (view excl rs))
+  /\ iter_genbank excl (render_gb rs) = ROk (view excl rs).
+Proof. exact (fun excl rs W => conj (eq_trans (proj2 (read_render excl rs W)) (f_equal ROk (view_fts_agrees excl rs))) (proj1 (read_render excl rs W))). Qed.
+Print Assumptions C10_read_fts_agrees.
 
 (* non-vacuity: a two-record file with a wrapped complement(join(1..5,<7..>10)), flags, '=' in a value and a multi-line
    translation is in the domain, reads to its view, and the view has the expected minus-strand locations *)
